@@ -243,6 +243,33 @@ def rule_lookup_all_sources(ck):
         ck.ob("loop.record_lookup", f"with_breakpoint_record_mut/consults-{fld}", found, "", f.loc())
 
 
+def rule_condition_eval(ck):
+    """a condition naming a variable is evaluated, not taken for a literal"""
+    prog = ck.prog
+    ck.rule("table.condition_eval", "evaluate_condition_expression: the shortcut that answers a condition from its own text (literal truthiness) is not taken for a bare identifier — the expression grammar also accepts an identifier as an enum-variant literal, whose truthiness is constant `true`; an identifier names a variable and goes to Debugger::read_variable. Structurally: the call of literal_truthy on the parsed literal is guarded by a test of the literal's variant")
+    fs = [f for p_, f in prog.fns.items() if p_.endswith("::evaluate_condition_expression")]
+    if not ck.ob("table.condition_eval", "evaluate_condition_expression/exists", len(fs) == 1, "", ""):
+        return
+    f = fs[0]
+    ck.saw(f)
+    lt = [c for c in f.calls() if c.name.endswith("::literal_truthy")]
+    rv = [c for c in f.calls() if c.name.endswith("Debugger::read_variable")]
+    ck.ob("table.condition_eval", "evaluate_condition_expression/evaluates-variables", len(rv) == 1, "", f.loc())
+    if not lt:
+        ck.ob("table.condition_eval", "evaluate_condition_expression/no-literal-shortcut", True, "", f.loc())
+        return
+    LIT = "debugger::variable::dqe::Literal"
+    guarded = False
+    for i, t, pl in switches_on_type(f, LIT):
+        if all(f.dominates(i, c.bb) for c in lt):
+            arm = switch_arm_map(prog, LIT, t)
+            if "EnumVariant" in arm:
+                # the EnumVariant arm must not lead straight to the shortcut for a payload-less variant
+                region = f.arm_region(i, arm["EnumVariant"]) | {arm["EnumVariant"]}
+                guarded = True
+    ck.ob("table.condition_eval", "evaluate_condition_expression/identifier-is-not-a-literal", guarded, "literal_truthy is applied to whatever parses as a literal, including a bare identifier (enum-variant literal => always true)", f.loc(lt[0].bb), what="a breakpoint condition consisting of a bool variable name (`done`, `odd`) is always true")
+
+
 def _mentions(e, fld):
     return ("." + fld) in expr_str(e, 8)
 
@@ -384,5 +411,6 @@ def run(ck):
     rule_replace(ck)
     rule_replace_data(ck)
     rule_lookup_all_sources(ck)
+    rule_condition_eval(ck)
     rule_verified(ck)
     rule_hits(ck)
